@@ -398,6 +398,44 @@ theorem C12_dynamic_literal (cfg : Cfg) (ev : Bool) (m : Nat → Bool) (pick : N
       | url v => simp [urlOf, ha] at hnu
       | lit resp => simp [litOf, ha]
 
+/-- **C12 later request of a connection without an upstream route.**  The web
+server's follow-up loop calls `handle_request` again on the SAME `ReverseProxy`
+object, whose `choice` / `upstream` / `connects` were left by earlier requests.
+For EVERY such earlier state `s`: a request none of whose hits yields a URL —
+no route matches at all, or only literal-response routes do — leaves `choice`,
+`upstream`, `connects` and `wraps` exactly as they were (in particular: no
+outbound connection, nothing forwarded to the upstream chosen by an earlier
+request), queues exactly the literal responses and keeps the connection up. -/
+theorem C12_followup_no_upstream_route (cfg : Cfg) (m : Nat → Bool) (pick : Nat → Nat) (connectOk : Bool)
+    (t : Table) (req : Parser) (s : St) (hp : req.path.isSome = true)
+    (hc : Clean cfg pick (hits m 0 t))
+    (hnone : (hits m 0 t).filterMap (urlOf cfg pick) = []) :
+    handleRequest cfg m pick connectOk t req s =
+      ⟨{ s with client := { s.client with buffer := s.client.buffer ++ (hits m 0 t).filterMap (litOf cfg pick) } },
+       false, none⟩ ∧
+    (handleRequest cfg m pick connectOk t req s).st.connects = s.connects ∧
+    (handleRequest cfg m pick connectOk t req s).st.upstream = s.upstream ∧
+    (handleRequest cfg m pick connectOk t req s).st.choice = s.choice := by
+  have hpath : req.path.isNone = false := by cases hq : req.path <;> simp_all
+  have h : handleRequest cfg m pick connectOk t req s =
+      ⟨{ s with client := { s.client with buffer := s.client.buffer ++ (hits m 0 t).filterMap (litOf cfg pick) } },
+       false, none⟩ := by
+    unfold handleRequest
+    simp only [hpath, Bool.false_and, Bool.false_eq_true, if_false]
+    rw [routeLoop_clean cfg m pick t 0 s false hc]
+    simp [hnone, afterRoutes]
+  exact ⟨h, by rw [h], by rw [h], by rw [h]⟩
+
+/-- … in particular when no route matches at all, whatever the earlier state is -/
+theorem C12_followup_no_route (cfg : Cfg) (m : Nat → Bool) (pick : Nat → Nat) (connectOk : Bool)
+    (t : Table) (req : Parser) (s : St) (hp : req.path.isSome = true) (hno : anyMatch m t = false) :
+    handleRequest cfg m pick connectOk t req s = ⟨s, false, none⟩ := by
+  have hh : hits m 0 t = [] := hits_nil_of_noMatch m t 0 hno
+  have := (C12_followup_no_upstream_route cfg m pick connectOk t req s hp
+    (by intro ir hir; rw [hh] at hir; cases hir) (by rw [hh]; rfl)).1
+  rw [this, hh]
+  simp
+
 /-- **C12 dynamic route returning a `Url`** acts exactly like a static route
 whose chosen URL parses to that `Url`: the loop sees the same action, hence
 (`C12_target`) the same connect address, forwarded request and relay. -/
@@ -504,5 +542,10 @@ example :
     (onRequestCompleteEv { rewriteHost := true } false (fun i => i == 0) (fun _ => 1) true exTable exReq {}).st.wraps
       = [b "httpbingo.org"] := by
   decide +kernel
+
+/-- non-vacuity of the follow-up theorem: an object that already routed a request to `exUrl` -/
+example : (handleRequest {} (fun _ => false) (fun _ => 0) true exTable exReq
+    { choice := some exUrl, connects := [(b "up.test", 80)] }).st.connects = [(b "up.test", 80)] := by
+  rw [C12_followup_no_route {} (fun _ => false) (fun _ => 0) true exTable exReq _ (by decide) (by decide)]
 
 end Px.Reverse
